@@ -1415,6 +1415,16 @@ func TestFoBurst(t *testing.T) {
 		ok := waitFor(func() bool { return atomic.LoadInt64(&inside) == K+2 && fo.KeyLocks() == K+2 })
 		res.Extra[fmt.Sprintf("burst_%d_all_inside", ri)] = ok
 
+		// while ALL builders are inside: second Gets for keys across the whole burst (early and late arrivals alike);
+		// each of them finds its key being built and waits
+		for i := 0; i < K; i += K / 40 {
+			wg.Add(1)
+
+			go get(keys[2+i])
+		}
+
+		time.Sleep(20 * time.Millisecond)
+
 		close(gateM) // the burst drains
 		ok = waitFor(func() bool { return fo.KeyLocks() == 2 })
 
